@@ -3,6 +3,7 @@
    what that property's statements need, so that a change which breaks one property's proof leaves the
    others' theorems checkable. *)
 From NTRIP Require Import Base Bits BitsProofs Time Classify Frame FrameSpec FrameProofs Msm MsmSpec MsmProofs Station StationProofs.
+From NTRIP Require Display.
 
 (* ===================== C07 (framing and single-frame part) ===================== *)
 (* For every byte stream the stream handler returns normally: no panic (out-of-bounds read),
@@ -41,3 +42,13 @@ Proof.
   - destruct (decode1006_total b) as [(m & -> & _)|[->| ->]]; discriminate.
 Qed.
 Print Assumptions C07_decoders.
+
+(* Display (Display.v): Message.String - analyse the message if it has not been analysed (dispatch
+   on the type to the decoders above, an error text if the decoder rejects the bytes), then lay the
+   parts out according to the log level - returns normally, with text, for EVERY message: any type
+   (including the sentinels), any raw bytes, either level.  The layout of the parts is abstract
+   (any total rendering functions); the dispatch, the caching and the error short-cuts are the code's. *)
+Theorem C07_display : forall (L : Type) title_lines frame_lines err_lines other_lines station_lines msm_lines (m : Display.dmsg L),
+  exists t m1, Display.string L title_lines frame_lines err_lines other_lines station_lines msm_lines m = Ok (t, m1).
+Proof. exact Display.string_total. Qed.
+Print Assumptions C07_display.
